@@ -157,8 +157,22 @@ fn small_n(ctx: &mut Ctx) -> i32 {
 }
 
 fn gen_args(ctx: &mut Ctx) -> Args {
-    let a = operand(ctx);
-    let b = if ctx.chance(1, 3) && a.hi != 0.0 { related(ctx, a, -1000, 999) } else { operand(ctx) };
+    let mut a = operand(ctx);
+    let mut b = if ctx.chance(1, 3) && a.hi != 0.0 { related(ctx, a, -1000, 999) } else { operand(ctx) };
+    if ctx.chance(1, 16) && a.hi != 0.0 && a.hi.is_finite() {
+        // in-domain operands whose PRODUCT (or quotient) lands in the last normal binades, where
+        // error terms fall on the subnormal grid; single-word operands half of the time
+        ctx.label("rel:result-at-the-bottom");
+        let t = ctx.range(-1022, -990);
+        let eb = if ctx.flag() { t - exponent(a.hi) } else { exponent(a.hi) - t };
+        if (-1000..=999).contains(&eb) {
+            let hi = f64::from_bits(((ctx.flag() as u64) << 63) | (((eb + 1023) as u64) << 52) | mantissa(ctx));
+            b = if ctx.flag() { Dd::new(hi, 0.0) } else { dd_at(ctx, hi) };
+            if ctx.flag() {
+                a = Dd::new(a.hi, 0.0);
+            }
+        }
+    }
     let c = operand(ctx);
     let f = operand_f64(ctx, a);
     let g = operand_f64(ctx, Dd::new(f, 0.0));
@@ -421,7 +435,7 @@ pub fn c01() -> Property {
         rule: "(a) single-call sweep: entry chosen from a table of 101 public entry points producing a TwoFloat (constructors, 25 operator/assignment forms, utility/rounding methods, 13 integer/float conversions, trait routes, all elementary functions, 29 constants); operands valid with hi = 0 or in [2^-1000,2^1000]: whole-range, moderate, pivots of the range switches (±709, -1074..-1020, 1023, k*pi/4, 2^52, 2^53, 32.25 ...) with ulp/2^-j offsets, rounding-function operands, deep-negative exponents for exp/exp2, edge exponents; f64/int/128-bit tie-family arguments. (b) programs: 4 registers and up to 48 instructions over the same table, invariant after every step, a result leaving the operand domain is replaced by a fresh valid value (counted). Oracle: hi finite => lo finite and hi + lo == hi (hardware, cross-checked by exact rounding). non-trivial = finite result with non-zero low word (sweep); a chain of >= 3 steps on operands produced by earlier steps (programs); distinct = distinct (entry, operand bits) / instruction words exact_grid (complete): every unary entry at +-k/128 (|x| <= 750), the integers up to 1100 and +-2^k with a zero low word, every binary/f64/integer-exponent entry at pairs of quarter-integers in [-16,16].",
         assumptions: vec!["a panic produces no TwoFloat and is only counted here (totality is claimed by C13-C15, C18)".into()],
         subchecks: vec![
-            SubCheck { name: "sweep", kind: Kind::Generated { words: 120, max_items: 0 }, eval: c01_sweep, quick: 3_000_000, thorough: 150_000_000 },
+            SubCheck { name: "sweep", kind: Kind::Generated { words: 120, max_items: 0 }, eval: c01_sweep, quick: 6_000_000, thorough: 150_000_000 },
             SubCheck { name: "exact_grid", kind: Kind::Enumerated { n: GRID_N }, eval: c01_exact_grid, quick: 0, thorough: 0 },
             SubCheck { name: "programs", kind: Kind::Generated { words: 48, max_items: 48 }, eval: c01_program, quick: 100_000, thorough: 4_000_000 },
         ],
@@ -446,6 +460,21 @@ fn c11_differential(ctx: &mut Ctx) {
         let d = dd_exp(ctx, -1022, 1023, true);
         x.a = (d.hi, d.lo);
         x.f = f64_any(ctx);
+        // the extremes of f64 and the non-finite constants as operands (the entry table maps an
+        // infinite high word onto TwoFloat::INFINITY / NEG_INFINITY, anything else invalid onto NAN)
+        const EXT: [f64; 10] = [f64::MAX, f64::MIN, f64::MIN_POSITIVE, -f64::MIN_POSITIVE, 5e-324, -5e-324, f64::INFINITY, f64::NEG_INFINITY, f64::NAN, 8.98846567431158e307];
+        if ctx.chance(1, 3) {
+            x.f = EXT[ctx.below(10) as usize];
+        }
+        if ctx.chance(1, 4) {
+            x.g = EXT[ctx.below(10) as usize];
+        }
+        if ctx.chance(1, 4) {
+            x.a = (EXT[ctx.below(10) as usize], 0.0);
+        }
+        if ctx.chance(1, 6) {
+            x.b = (EXT[ctx.below(10) as usize], 0.0);
+        }
     }
     ctx.key_u64(i as u64);
     key_args(ctx, es, &x);
@@ -700,6 +729,19 @@ fn c11_isolated(ctx: &mut Ctx) {
             }
         };
         x.a = (d.hi, d.lo);
+    }
+    if ctx.chance(1, 10) {
+        ctx.label("wild-operands");
+        const EXT: [f64; 10] = [f64::MAX, f64::MIN, f64::MIN_POSITIVE, -f64::MIN_POSITIVE, 5e-324, -5e-324, f64::INFINITY, f64::NEG_INFINITY, f64::NAN, 8.98846567431158e307];
+        match ctx.below(4) {
+            0 => x.f = EXT[ctx.below(10) as usize],
+            1 => x.a = (EXT[ctx.below(10) as usize], 0.0),
+            2 => x.b = (EXT[ctx.below(10) as usize], 0.0),
+            _ => {
+                x.f = EXT[ctx.below(10) as usize];
+                x.g = EXT[ctx.below(10) as usize];
+            }
+        }
     }
     ctx.key_u64(i as u64);
     key_args(ctx, e, &x);
